@@ -11,6 +11,9 @@ Extracted (fail-closed: a shape that is not found raises TranslatorError):
     contains, after `_slide_with_subflows(new_state, flow_state)`, a statement
         if flow_state.head < 0: ... flow_state.status = FlowStatus.COMPLETED ...
     (what the loop over the existing flows does)                     -> start_marks_completed
+  * in _call_subflow, whether `_record_next_step(new_state, subflow_state, subflow_config)` is
+    guarded by `if subflow_state.status == FlowStatus.ACTIVE:` (or absent - _slide_with_subflows
+    already proposes the head of an active subflow)                   -> call_records_active_only
 V1/Interp.v takes these as definitions; Props/C14.v proves `start_marks_completed = true`
 from the generated value, so the pinned snapshot (which lacks the statement) breaks a proof
 obligation and the harness then exhibits the failing history.
@@ -101,6 +104,23 @@ def flows_consts():
             raise TranslatorError("compute_next_state: unexpected statement after _slide_with_subflows in the start branch: "
                                   + ast.unparse(s)[:80])
     out["start_marks_completed"] = marks
+
+    # --- _call_subflow: is the subflow's head proposed as next step only while it is ACTIVE?
+    cf = TC._func(tree, "_call_subflow")
+    rec = _d("_record_next_step(new_state, subflow_state, subflow_config)")
+    guard = _d("subflow_state.status == FlowStatus.ACTIVE")
+    top = [s for s in cf.body if isinstance(s, ast.Expr) and ast.dump(s.value) == rec]
+    guarded = [s for s in cf.body if isinstance(s, ast.If) and ast.dump(s.test) == guard and not s.orelse
+               and len(s.body) == 1 and isinstance(s.body[0], ast.Expr) and ast.dump(s.body[0].value) == rec]
+    n_calls = sum(1 for n in ast.walk(cf) if isinstance(n, ast.Call) and getattr(n.func, "id", None) == "_record_next_step")
+    if n_calls == 1 and len(top) == 1:
+        out["call_records_active_only"] = False
+    elif n_calls == 1 and len(guarded) == 1:
+        out["call_records_active_only"] = True
+    elif n_calls == 0:
+        out["call_records_active_only"] = True     # _slide_with_subflows already proposes an active subflow's head
+    else:
+        raise TranslatorError("_call_subflow: unexpected use of _record_next_step")
     return out
 
 
@@ -112,6 +132,7 @@ def emit(c) -> str:
         + "; ".join(TC.coq_str(s) for s in c["default_trigger_types"]) + "].",
         f"Definition nontrigger_modifier : Q := ({q.numerator} # {q.denominator})%Q.",
         f"Definition start_marks_completed : bool := {'true' if c['start_marks_completed'] else 'false'}.",
+        f"Definition call_records_active_only : bool := {'true' if c['call_records_active_only'] else 'false'}.",
     ]
     return "\n".join(lines)
 
